@@ -93,7 +93,7 @@ META["C03"] = dict(
     text="Lean 4 theorem c03_fidelity_partial over an executable model of the publisher (batching by size and by an arbitrary clock oracle, send = poll_ready/start_send/poll_flush, finish) and the subscriber (unbatching, pop order): for every lossless codec, every self-inverting compressor or none, batching off or on with any size, any frame limit, every item list and every clock: whenever every send() and finish() returned Ok the subscriber yields exactly the items sent, in order, and finish() leaves nothing in the batch or the framed writer; the framed writer's size check is part of the model (a refused frame is an error result), which is what exposes the known finding c03_refused_batch_loses_accepted_members (a batch that outgrows the frame limit is drained before it is refused); c03_subscriber_state_machine_refines_outputs (poll_next driven call after call yields the list-level specification) and c03_end_to_end_through_the_router_partial (publisher model, router model of C01 and subscriber model composed); tied to the code by running real clients through a real server over loopback QUIC for a grid of configurations and comparing what the subscriber yields; c03_fidelity_any_driving_partial: the same for any mix of send / feed (accepted, not flushed) / flush / bare poll_ready before finish(); c03_duplicate_delivers_only_its_own_partial: Publisher::duplicate() is built from the configuration, whatever the original has collected stays with it (each accepted item is delivered once)",
     design_ref="DESIGN.md section 6, C03",
     note="_partial: the compression libraries' round trip is a hypothesis (tested in C14); transport and server forwarding are trusted/proved elsewhere (C01); one known finding (known_findings.json: C03-oversize-batch-drops-accepted-items) is reported as KNOWN-FINDING on every run",
-    technique="Lean 4 invariant proof over hand model + end-to-end differential correspondence over loopback QUIC",
+    technique="Lean 4 invariant proof over hand model + end-to-end differential correspondence over loopback QUIC + MessageBatch readiness predicates printed from the source as Lean definitions on every run and tied to the publisher model (Props/C03Gen)",
 )
 
 META["C04"] = dict(
